@@ -290,14 +290,14 @@ Qed.
 (* ---- tie to the source by regeneration (DESIGN.md 4.2): the six termination thresholds and the two zoom switches of shape/line.go,
    read from /repo's current source as exact decimals (m, e) = m * 10^e, are the values the model uses ---- *)
 From SIDGen Require Generated.
-From SID Require GenEqConst LineGen GenC06.
+From SID Require GenEqConstLine LineGen GenC06.
 Theorem C06_generated_thresholds_are_the_models :
   (Generated.LonMinima, Generated.LatMinima, Generated.AltMinima) = ((2, -8), (2, -8), (3, -3))%Z /\
   (Generated.HightZoomLonMinima, Generated.HightZoomLatMinima, Generated.HightZoomAltMinima) = ((5, -9), (5, -10), (5, -4))%Z.
-Proof. exact GenEqConst.gen_line_thresholds_eq. Qed.
+Proof. exact GenEqConstLine.gen_line_thresholds_eq. Qed.
 Print Assumptions C06_generated_thresholds_are_the_models.
 Theorem C06_generated_zoom_switches_are_the_models : (Generated.LineSwitch_hZoom, Generated.LineSwitch_vZoom) = (31, 34)%Z.
-Proof. exact GenEqConst.gen_line_switches_eq. Qed.
+Proof. exact GenEqConstLine.gen_line_switches_eq. Qed.
 Print Assumptions C06_generated_zoom_switches_are_the_models.
 (* ... and the model's own constants are those values: the binary64 literals of Line.v are the correctly rounded doubles of the
    generated decimals, the switches of Line.thresholds and the real thresholds of LineA1 (thr_lon/thr_lat/thr_alt) are the
